@@ -230,8 +230,15 @@ func classifyRecord(p string) string {
 }
 
 // check compares getters (always) and probe shapes (if probe) of every logger with the model.
-func (w *c11world) check(probe bool) (clause, detail string) {
-	for i, l := range w.loggers {
+// check compares every logger with the model; the loggers are visited starting with logger `first`.
+func (w *c11world) check(probe bool, first ...int) (clause, detail string) {
+	start := 0
+	if len(first) > 0 && first[0] < len(w.loggers) {
+		start = first[0]
+	}
+	for k := range w.loggers {
+		i := (start + k) % len(w.loggers)
+		l := w.loggers[i]
 		want := w.model.fmts[i]
 		if l.JSONMode() != (want == "json") || l.ColorMode() != (want == "color") {
 			return "getters", fmt.Sprintf("logger L%d: model state %s, JSONMode()=%v ColorMode()=%v", i, want, l.JSONMode(), l.ColorMode())
@@ -246,7 +253,11 @@ func (w *c11world) check(probe bool) (clause, detail string) {
 			}
 			for _, sev := range sevs {
 				w.rec.reset()
-				l.WriteThru(bg, sev, fixedTime, 0, "probe", slog.Attrs{slog.Int("k", 1)})
+				msg := "probe"
+				if sev == slog.InfoLevel {
+					msg = "probe\nwith a second line\nand a third\n" // coloured records keep per-record line state in the pooled context
+				}
+				l.WriteThru(bg, sev, fixedTime, 0, msg, slog.Attrs{slog.Int("k", 1)})
 				if len(w.rec.events) != 1 {
 					return "record-shape", fmt.Sprintf("logger L%d: %d writes for the probe", i, len(w.rec.events))
 				}
@@ -283,10 +294,14 @@ func c11replay(cas c11case, probeAll bool) (*Violation, string) {
 		if o.Target >= len(w.loggers) {
 			return nil, ""
 		}
+		// the target logs a record right before the operation and is the first to log after it
+		// (no record of another logger in between)
+		w.rec.reset()
+		w.loggers[o.Target].WriteThru(bg, slog.InfoLevel, fixedTime, 0, "before the operation\nsecond line", nil)
 		if pan := w.apply(o); pan != "" {
 			return mk("op-returns", o.String()+": "+firstLine(pan), i+1), ""
 		}
-		if cl, d := w.check(probeAll || i == len(cas.Ops)-1); cl != "" { // every logger emits a record after EVERY operation (three severities in the final state)
+		if cl, d := w.check(probeAll || i == len(cas.Ops)-1, o.Target); cl != "" { // every logger emits a record after EVERY operation (three severities in the final state)
 			return mk(cl, d, i+1), ""
 		}
 	}
